@@ -22,13 +22,16 @@ type Call struct {
 }
 
 type Scenario struct {
-	Cfg        int // bit0 debug logger, bit1 io logger
-	Init       [][]byte
-	Replies    [][][]byte
-	WF, RF, FF []int
-	WS         []int // write indices at which the port takes only part of the bytes (and reports that, without an error)
-	Calls      []Call
-	Tag        string
+	Cfg         int // bit0 debug logger, bit1 io logger
+	Init        [][]byte
+	Replies     [][][]byte
+	WF, RF, FF  []int
+	WS          []int       // write indices at which the port takes only part of the bytes (and reports that, without an error)
+	RDelay      map[int]int // read index -> milliseconds the Read takes
+	EOFData     int         // number of queue-draining Reads that report io.EOF together with their data
+	ExactWrites []int       // if set: call i must write exactly that many frames
+	Calls       []Call
+	Tag         string
 	// oracle switches
 	MaxWritesPerCall int  // 0 = don't check; else every call may write at most that many frames
 	NoAccept         bool // C01: no call may return a value (every delivered frame is corrupt/foreign)
@@ -210,17 +213,6 @@ func nonZero(nz bool, v any) string {
 	return fmt.Sprintf("+nonzero-value=%v", v)
 }
 
-// chunkCredit: the number of Reads a list of chunks can satisfy (bufio reads with a 4096 byte buffer)
-func chunkCredit(cs [][]byte) int {
-	n := 0
-	for _, c := range cs {
-		if len(c) > 0 {
-			n += 1 + len(c)/1024
-		}
-	}
-	return n
-}
-
 func callName(c Call) string {
 	switch c.Kind {
 	case "ping", "devid":
@@ -257,6 +249,8 @@ func idleBits(ev []byte) string {
 func RunScenario(sc *Scenario) *RunResult {
 	port := NewPort(sc.Init, sc.Replies, sc.WF, sc.RF, sc.FF)
 	port.WS = idxSet(sc.WS)
+	port.RDelay = sc.RDelay
+	port.EOFData = sc.EOFData
 	var cfg vedirect.Config
 	dbg := &capLogger{}
 	iol := &capLogger{}
@@ -280,16 +274,12 @@ func RunScenario(sc *Scenario) *RunResult {
 		}
 		evFrom := len(port.Events)
 		wFrom := port.NW
-		rFrom := port.NR
-		credit := chunkCredit(port.Queue)
+		eFrom := port.NE
 		out := doCall(vd, c, res)
-		for k := wFrom; k < port.NW && k < len(port.Replies); k++ {
-			credit += chunkCredit(port.Replies[k])
-		}
-		// C06: every Read either delivers data the device sent or ends an attempt, so a call performs at most
-		// (chunks the device supplied) + 8 Reads (theorem reads_bounded)
-		if out != "HANG" && port.NR-rFrom > credit+8 {
-			res.Violations = append(res.Violations, fmt.Sprintf("call %d (%s) performed %d reads although the device supplied only %d chunks of data: more than one read per attempt after the port reported no more data", i, callName(c), port.NR-rFrom, credit))
+		// C06: a Read that delivers nothing (end of data, an error) ends the attempt it occurs in, so a call performs at
+		// most eight of them (theorem failing_reads_bounded); how the data reads are sized is bufio's business
+		if out != "HANG" && port.NE-eFrom > 8 {
+			res.Violations = append(res.Violations, fmt.Sprintf("call %d (%s) performed %d reads that delivered nothing: more than one per attempt after the port reported no more data", i, callName(c), port.NE-eFrom))
 		}
 		bits := idleBits(port.Events[evFrom:])
 		if out == "PANIC" {
@@ -307,6 +297,9 @@ func RunScenario(sc *Scenario) *RunResult {
 		callStrs = append(callStrs, callName(c)+"@"+bits)
 		if c.Want != "" && out != c.Want {
 			res.Violations = append(res.Violations, fmt.Sprintf("call %d (%s): property demands %s, observed %s", i, callName(c), c.Want, out))
+		}
+		if i < len(sc.ExactWrites) && sc.ExactWrites[i] >= 0 && port.NW-wFrom != sc.ExactWrites[i] {
+			res.Violations = append(res.Violations, fmt.Sprintf("call %d (%s) wrote %d frames; the answer arrives with attempt %d", i, callName(c), port.NW-wFrom, sc.ExactWrites[i]))
 		}
 		if sc.MaxWritesPerCall > 0 && port.NW-wFrom > sc.MaxWritesPerCall {
 			res.Violations = append(res.Violations, fmt.Sprintf("call %d (%s) wrote %d frames (> %d)", i, callName(c), port.NW-wFrom, sc.MaxWritesPerCall))
@@ -369,7 +362,7 @@ func RunScenario(sc *Scenario) *RunResult {
 		// the model has no notion of a partial write: the driver hands the frame to the port once, whatever n is
 		res.Op += " ws:" + intsStr(sc.WS)
 	}
-	res.Out = fmt.Sprintf("%s W=%s R=%d F=%d L=%s", strings.Join(res.Results, ";"), strings.Join(ws, ","), port.NR, port.NF, strings.Join(ls, ","))
+	res.Out = fmt.Sprintf("%s W=%s R=%d F=%d L=%s", strings.Join(res.Results, ";"), strings.Join(ws, ","), port.NE, port.NF, strings.Join(ls, ","))
 	return res
 }
 
